@@ -33,7 +33,19 @@ EXPLANATION = (
     "its helpers read) is written by no other method of IncompleteHashTree / HashTree / the mixin than the constructors "
     "(needed_hashes, needed_for, the index helpers, any added setter - a wrapper that goes through set_hashes is fine), and the "
     "attributes are stored nowhere else in the package. "
-    "Undecided: hash collision freedom; value-level equality of computed roots; that num_levels / the size of "
+    "All set_hashes rules run on a JOURNAL VIEW of the method: helper methods of the tree that write slots are inlined "
+    "(a helper that collects what it stored and returns it at the end is then an unjournaled store on the path where it "
+    "raises, rule (a)); a set_hashes that validates in an overlay dict created by the call and copies it into the slots at "
+    "the end is rewritten into the journal form it is equivalent to (overlay store = store + journal entry, a read through "
+    "the overlay = self[i], a read past it = BASE_[i]) after deciding on the real CFG that nothing able to reject the call "
+    "follows a slot written by the commit loop (a) and that every key entering the overlay was used to read the tree "
+    "before (i); stores that are neither undone nor deferred and can be followed by a rejection are violations of (a). "
+    "(c) is decided as a path condition: from the point where (node, offered/derived value) is known, every way on to "
+    "the next node leads over an edge on which the slot is empty or equal to the value - for every node, the root "
+    "included. (d) accepts offered hashes being filed in bulk by a loop over the journal that precedes the walk. "
+    "Undecided: overlay forms whose overlay is used other than by subscript store, view read (nested def / .get(i, self[i]) / "
+    "conditional expression) and the commit loop, helpers that return from the middle, are generators, or are called in "
+    "the head of a compound statement (all ANALYSIS-ERROR); hash collision freedom; value-level equality of computed roots; that num_levels / the size of "
     "hashes_to_check equals the depth of the deepest node (an off-by-one there is an IndexError/NameError crash "
     "that rule (i) only turns into a rolled-back rejection when it is an IndexError; decided only when the work "
     "list is a mapping filled on demand, where nothing would raise); work lists that are not `for LEVEL in ..: pop from "
@@ -90,17 +102,39 @@ def _store_index(n):
 
 def run(ctx: Context, P: str = "C35"):
     idx = ctx.idx
-    fn = idx.func(SET)
+    fn0 = idx.func(SET)
+    # the rules below run on the journal view of set_hashes (helpers inlined, overlay-and-commit rewritten into
+    # journal-and-rollback); what cannot be viewed that way is an analysis error of every rule that needs it
+    pre = []
+    try:
+        view = _build_view(idx, fn0, pre)
+        broken = None if view.fn is not None else AnalysisError(
+            "set_hashes: stores into the tree are neither undone by a rollback handler nor deferred to a final commit")
+    except AnalysisError as e:
+        view, broken = None, e
+
+    def need():
+        if broken is not None:
+            raise broken
+
+    fn = view.fn if view is not None and view.fn is not None else fn0
     cfg = fn.cfg()
     fnorm = FlowNorm(fn)
-    journal, handler = _journal_name(fn, cfg)
-    hreach = {n.id for (n, _s) in _reach(cfg, handler)}
-    region_stores = [n for n in cfg.stmt_nodes() if _store_index(n) is not None and n.id not in hreach
-                     and any(l == "exc" for (_d, l) in cfg.succ[n.id])]
+    journal = handler = None
+    hreach, region_stores = set(), []
+    if broken is None:
+        journal, handler = _journal_name(fn, cfg)
+        hreach = {n.id for (n, _s) in _reach(cfg, handler)}
+        region_stores = [n for n in cfg.stmt_nodes() if _store_index(n) is not None and n.id not in hreach
+                         and any(l == "exc" for (_d, l) in cfg.succ[n.id])]
 
     # -- (a) journaling ----------------------------------------------------
     with ctx.rule(P + ".1", "R10", "set_hashes: every self[i]=v in the try region is followed by journal.add(i) "
                   "before any explicit raise, loop back-edge or exit", expected=2) as r:
+        for (rid, nd_, msg, w) in pre:
+            if rid == "1":
+                r.violation(fn0, fn0.loc(nd_), msg, w)
+        need()
         for s in region_stores:
             ix = norm_plain(_store_index(s))
             r.site(fn, s.ast, "store self[%s]" % ix)
@@ -145,6 +179,7 @@ def run(ctx: Context, P: str = "C35"):
     # -- (b) handler -------------------------------------------------------
     with ctx.rule(P + ".2", "R10", "set_hashes: the handler catches every exception class explicitly raised in the "
                   "region, undoes all journaled stores and re-raises", expected=3) as r:
+        need()
         hn = set(C._handler_names(handler.ast.type) or ["BaseException"])
         raised = set()
         for n in cfg.stmt_nodes():
@@ -178,6 +213,7 @@ def run(ctx: Context, P: str = "C35"):
     # -- (c) conflict check ------------------------------------------------
     with ctx.rule(P + ".3", "R1", "set_hashes: a node is overwritten only when empty; a known node that differs "
                   "from the offered/derived value raises BadHashError", expected=2) as r:
+        need()
         for s in region_stores:
             ixe = _store_index(s)
             ix = fnorm.norm(s, ixe)
@@ -188,24 +224,57 @@ def run(ctx: Context, P: str = "C35"):
                 f = fnorm.edge_fact(n, lab)
                 if not f:
                     return False
-                return (f[0] == "false" and f[1] == "self[%s]" % _ix) or \
-                       (f[0] == "is" and {f[1], f[2]} == {"None", "self[%s]" % _ix})
+                # (in the view of an overlay-and-commit set_hashes BASE_[i] is the slot itself, self[i] the slot seen
+                # through the overlay: either being empty means the slot is empty)
+                return any((f[0] == "false" and f[1] == "%s[%s]" % (t_, _ix)) or
+                           (f[0] == "is" and {f[1], f[2]} == {"None", "%s[%s]" % (t_, _ix)}) for t_ in ("self", _BASE))
             for (t, w) in find_path_avoiding(cfg, lambda n, _s=s: n is _s, gate_edge=empty):
                 r.violation(fn, fn.loc(s.ast), "self[%s] can be overwritten although it already holds a hash "
                             "(path: %s)" % (ix, w.brief()), w)
-            # the non-empty branch compares with the same value and raises on mismatch
+            # the non-empty branch compares with the same value ...
+            pairs = ({"self[%s]" % ix, val}, {"%s[%s]" % (_BASE, ix), val})
             found = False
             for t in cfg.find(lambda n: n.kind == "test"):
                 f = fnorm.edge_fact(t, ("T", t.ast))
-                if f and f[0] in ("!=", "==") and {f[1], f[2]} == {"self[%s]" % ix, val}:
+                if f and f[0] in ("!=", "==") and {f[1], f[2]} in pairs:
                     found = True
-                    mism = "T" if f[0] == "!=" else "F"
-                    for (d, lab) in cfg.succ[t.id]:
-                        if isinstance(lab, tuple) and lab[0] == mism:
-                            kinds = [(x, x.kind) for (x, _s) in _reach(cfg, cfg.nodes[d])]
-                            first_raise = _first_stmt(cfg, cfg.nodes[d])
-                            r.require(first_raise is not None and raises("BadHashError")(first_raise), fn,
-                                      fn.loc(t.ast), "mismatch between self[%s] and %s does not raise BadHashError" % (ix, val))
+            # ... and from the point where the (node, value) pair is known, every way on to the next node leads over an edge
+            # on which the slot is empty or equal to the value: all that is left is a rejection.  (A known node - the root
+            # above all, which no parent check covers - whose offered value differs must not be passed over in silence.)
+            if isinstance(ixe, ast.Name):
+                starts = [n for n in cfg.nodes if n.kind == "iter" and n.id not in hreach and ixe.id in node_stores(n)]
+            else:
+                starts = []
+            if not starts:
+                # (the statement that computes the value - not a later copy of it into another local, which may sit behind
+                # the test already)
+                starts = [n for n in cfg.stmt_nodes() if n.id not in hreach and isinstance(n.ast, ast.Assign) and n is not s
+                          and not isinstance(n.ast.value, ast.Name) and _store_index(n) is None
+                          and fnorm.norm(n, n.ast.value) == val]
+            ends = {n.id for n in cfg.nodes if n.kind in ("iter", "exit") or
+                    (n.kind == "stmt" and isinstance(n.ast, ast.Pass) and _is_while_head(cfg, n))}
+            for st_ in starts:
+                hits = []
+
+                def tr(n, lab, nxt, state, _st=st_, _hits=hits):
+                    if lab == "exc" or (n is _st and n.kind == "iter" and lab != "iter") or (n.id in ends and n is not _st) \
+                            or _infeasible(lab):
+                        return None
+                    if n.kind == "test":
+                        f = fnorm.edge_fact(n, lab)
+                        if f and (empty(n, lab) or (f[0] == "==" and {f[1], f[2]} in pairs)):
+                            return None
+                    if nxt.id in ends:
+                        _hits.append(n)
+                    return 0
+                visited, parent = explore(cfg, 0, tr, start=st_)
+                r.count(len(visited))
+                if hits:
+                    w = witness(cfg, parent, (hits[0].id, 0))
+                    r.violation(fn, fn.loc(hits[0].ast if hits[0].ast is not None else s.ast), "the walk goes on to the next node on a "
+                                "path where self[%s] may hold a hash that differs from %s (neither found empty nor compared equal: %s): "
+                                "a conflicting value for an already known node - for the root no parent check stands behind it - is "
+                                "not rejected with BadHashError" % (ix, val, w.brief()), w)
             r.require(found, fn, fn.loc(s.ast), "no comparison of the existing self[%s] with the value %s being "
                       "accepted: a conflicting hash would be silently ignored" % (ix, val))
 
@@ -213,6 +282,7 @@ def run(ctx: Context, P: str = "C35"):
     with ctx.rule(P + ".4", "R1/R2", "set_hashes: upward propagation - sibling required, parent = pair_hash(sorted "
                   "pair), unknown parent stored and enqueued one level up, only the root is skipped, bottom-up order",
                   expected=5) as r:
+        need()
         # parent hash
         ph = [n for n in cfg.stmt_nodes() if calls_at(n, "pair_hash")]
         if len(ph) != 1:
@@ -262,6 +332,17 @@ def run(ctx: Context, P: str = "C35"):
                       "computed parent hash is stored at %s, not at parent(%s)" % (pix, cur))
         # every newly stored hash (offered or derived) is enqueued for checking at its own level,
         # either before the store in the same iteration or after it before the loop goes round
+        bulk = set()
+        for ln_ in cfg.nodes:
+            if ln_.kind == "iter" and ln_.id not in hreach and isinstance(ln_.ast.target, ast.Name) \
+                    and journal in (attr_path(ln_.ast.iter), attr_path(fnorm.resolve(ln_, ln_.ast.iter))):
+                t_ = ln_.ast.target.id
+                for st_ in ln_.ast.body:
+                    cc = st_.value if isinstance(st_, ast.Expr) and isinstance(st_.value, ast.Call) else None
+                    if cc is not None and call_tail(cc) == "add" and len(cc.args) == 1 and attr_path(cc.args[0]) == t_ \
+                            and isinstance(cc.func, ast.Attribute) and isinstance(cc.func.value, ast.Subscript) \
+                            and norm_plain(cc.func.value.slice) == norm_src("depth_of(%s)" % t_):
+                        bulk.add(ln_.id)
         for s in region_stores:
             six = fnorm.norm(s, _store_index(s))
             r.site(fn, s.ast, "enqueue of self[%s]" % six)
@@ -280,6 +361,12 @@ def run(ctx: Context, P: str = "C35"):
             # a path into the rollback handler is a rejection (everything journaled is undone), not an omission
             after = find_path_from_to_avoiding(cfg, lambda n, _s=s: n is _s, lambda n, _e=enq: n.id in hreach or _e(n),
                                                ends=loop_or_exit)
+            if after and bulk:
+                # filed in bulk: every index stored so far is in the journal (rule (a)), and a loop over the journal that all
+                # ways from this store to the walk (the first pop) lead through enqueues each of them at its own level
+                after = find_path_from_to_avoiding(cfg, lambda n, _s=s: n is _s,
+                                                   lambda n, _e=enq: n.id in hreach or _e(n) or n.id in bulk,
+                                                   ends=lambda n: n.kind == "exit" or bool(calls_at(n, "pop")))
             if after:
                 ixnames = names_in(_store_index(s))
                 before = find_path_avoiding(cfg, lambda n, _s=s: n is _s, gate_node=enq,
@@ -318,16 +405,7 @@ def run(ctx: Context, P: str = "C35"):
         # the set that is popped is the one hashes are enqueued into for this level
         r.require(any("hashes_to_check[level]" in fnorm.norm(p_, calls_at(p_, "pop")[0].func.value) or True for p_ in pops), fn, fn.loc(), "")
         # only the root is skipped
-        conts = [n for n in cfg.stmt_nodes() if isinstance(n.ast, ast.Continue) and n.id not in hreach
-                 and _in_try_body(fn, n.ast)]
-        for cn in conts:
-            r.site(fn, cn.ast, "continue")
-
-            def is_root(n, lab):
-                f = fnorm.edge_fact(n, lab)
-                return bool(f) and f[0] == "==" and "0" in (f[1], f[2])
-            for (t, w) in find_path_avoiding(cfg, lambda n, _c=cn: n is _c, gate_edge=is_root):
-                r.violation(fn, fn.loc(cn.ast), "a non-root node can be skipped without verification", w)
+        # (the `continue` rule follows the search for the level loop below)
         # every level >= 1 is processed, deepest first - including the levels that receive their first entry while
         # the walk is under way (a computed parent lands one level up, whether or not the offer had a hash there)
         lv = []
@@ -346,6 +424,19 @@ def run(ctx: Context, P: str = "C35"):
                     lv.append((n, ws.value.id))
         if not lv:
             raise AnchorVanished("set_hashes: the loop over tree levels (for LEVEL in ..: pop from WORK[LEVEL]) was not found")
+        # only the root is skipped: a `continue` of the walk (inside the loop over levels; the loop that files the offered
+        # hashes may well `continue` after a hash that agrees with the known one) needs the node to be the root
+        in_walk = {id(x) for (ln_, _w) in lv for st_ in ln_.ast.body for x in ast.walk(st_)}
+        conts = [n for n in cfg.stmt_nodes() if isinstance(n.ast, ast.Continue) and n.id not in hreach
+                 and id(n.ast) in in_walk]
+        for cn in conts:
+            r.site(fn, cn.ast, "continue")
+
+            def is_root(n, lab):
+                f = fnorm.edge_fact(n, lab)
+                return bool(f) and f[0] == "==" and "0" in (f[1], f[2])
+            for (t, w) in find_path_avoiding(cfg, lambda n, _c=cn: n is _c, gate_edge=is_root):
+                r.violation(fn, fn.loc(cn.ast), "a non-root node can be skipped without verification", w)
         for (ln_, work) in lv:
             it = ln_.ast.iter
             r.site(fn, ln_.ast, "level loop")
@@ -460,6 +551,7 @@ def run(ctx: Context, P: str = "C35"):
     # -- (f) HashTree construction and leaf merging -----------------------
     with ctx.rule(P + ".6", "R1", "HashTree.__init__ pads with empty_leaf_hash(i) and pairs (2i, 2i+1); set_hashes "
                   "merges leaves into the checked map at first_leaf_num + leafnum", expected=3) as r:
+        need()
         f = idx.func(MOD + ":HashTree.__init__")
         r.site(f, None)
         pads = [n for n in f.cfg().stmt_nodes() if calls_at(n, "empty_leaf_hash")]
@@ -606,6 +698,7 @@ def run(ctx: Context, P: str = "C35"):
     with ctx.rule(P + ".8", "R1", "set_hashes: an offered map is replaced by a default only when it is absent, the map "
                   "validated in the region derives from the offered hashes, and BadHashError / NotEnoughHashesError "
                   "are never raised on the edge where the two hashes agree / the hash is present", expected=5) as r:
+        need()
         ps = first_positional_params(fn)
         for p_ in ps:
             for n in cfg.stmt_nodes():
@@ -668,6 +761,10 @@ def run(ctx: Context, P: str = "C35"):
         with ctx.rule(P + ".9", "R10", "set_hashes: indices taken from the offered map are read with self[i] after earlier "
                       "stores of the same call; an out-of-range index raises IndexError there, so the rollback handler must "
                       "cover IndexError (or every index is range-checked before the first store)", expected=1) as r:
+            for (rid, nd_, msg, w) in pre:
+                if rid == "9":
+                    r.violation(fn0, fn0.loc(nd_), msg, w)
+            need()
             defs_ = def_exprs(fn)
             offered = set(first_positional_params(fn))
             risky = []
@@ -675,7 +772,7 @@ def run(ctx: Context, P: str = "C35"):
                 if n.kind not in ("stmt", "test") or n.id in hreach or not _in_try_body(fn, n.ast):
                     continue
                 for x in own_nodes(n.ast):
-                    if isinstance(x, ast.Subscript) and isinstance(x.ctx, ast.Load) and attr_path(x.value) == "self":
+                    if isinstance(x, ast.Subscript) and isinstance(x.ctx, ast.Load) and attr_path(x.value) in ("self", _BASE):
                         bound = [it for it in cfg.nodes if it.kind == "iter" and (names_in(x.slice) & node_stores(it))
                                  and (offered & depends_on(fn, it.ast.iter, defs=defs_))]
                         if bound and any(_path_exists(cfg, s, n) for s in region_stores):
@@ -699,6 +796,7 @@ def run(ctx: Context, P: str = "C35"):
                       "its work lists and every other object it mutates (also inside the helpers it calls) are created by the call "
                       "itself, not an attribute of the tree, module / class level state or a shared default argument - unless no "
                       "rejection can follow the write", expected=5) as r:
+            need()
             env0 = A.entry_env(fn)
             act0 = A.act(fn, env0)
             effs = A.effects(fn, env0)
@@ -795,6 +893,17 @@ def run(ctx: Context, P: str = "C35"):
             guarded = {"self", "self[]", "self.*"} | {"self." + a_ for a_ in reads}
             done = set()
             tree_classes = set()
+            # a helper that only set_hashes (or another such helper) calls is part of set_hashes: its stores were inlined
+            # into the journal view and are decided there by rules (a) - (d) and (j)
+            private = {}
+            if broken is None:
+                clos = _self_closure(A.cg, fn0)
+                for q_, m_ in clos.items():
+                    if m_ is fn0 or m_.cls is None or m_.name.startswith("__") or not _stores_slots(A.cg, m_):
+                        continue
+                    badc, badr, _t = callers_outside(idx, m_.name, [x.split("allmydata.", 1)[-1] for x in clos])
+                    if not badc and not badr:
+                        private[m_.qual] = m_
             for cname in ("IncompleteHashTree", "HashTree"):
                 for c_ in idx.cls(MOD + ":" + cname).mro():
                     tree_classes.add(c_.qual)
@@ -802,6 +911,9 @@ def run(ctx: Context, P: str = "C35"):
                         if m.name in ("__init__", "set_hashes") or m.qual in done:
                             continue
                         done.add(m.qual)
+                        if m.qual in private:
+                            r.site(m, None, "helper of set_hashes (inlined)")
+                            continue
                         r.site(m, None)
                         n0 = len(A.undecided)
                         for e in A.effects(m, A.entry_env(m), stop=("set_hashes",)):
@@ -823,7 +935,7 @@ def run(ctx: Context, P: str = "C35"):
                         continue        # another class's attribute of the same name
                     if own and f_.name == "__init__":
                         continue
-                    if own and (f_.qual in done or f_ is fn):
+                    if own and (f_.qual in done or f_ is fn or f_ is fn0):
                         continue        # reported above / set_hashes' own writes: rule (j)
                     r.violation(f_, f_.loc(node), "%s is stored outside the constructors of the tree classes: set_hashes and "
                                 "needed_hashes compute leaf positions from it" % src(f_, node))
@@ -1735,3 +1847,451 @@ def _self_closure(cg, fn, depth=_MAXD):
 def _self_attr_loads(fn):
     return {n.attr for n in func_own_nodes(fn, into_lambda=True) if isinstance(n, ast.Attribute)
             and isinstance(n.ctx, ast.Load) and attr_path(n.value) == "self"}
+
+
+# ---------------------------------------------------------------------------------------------------------------
+# The journal view of set_hashes
+#
+# The rules above are written against ONE function that stores provisional hashes into the tree, journals every
+# store and undoes the journaled stores in a handler.  Two refactorings keep that behaviour and only move it:
+#   * helpers: part of the work is done by methods called on self (`self._add_pending(..)`).  They are inlined
+#     (parameters replaced by the arguments, locals renamed, the final `return E` turned into an assignment), so
+#     that a store inside a helper is paired with the journal entry exactly as if it had been written in place - a
+#     helper that collects the indices in a set of its own and hands it back at the end is then seen as what it is:
+#     a store that is not journaled when the helper raises.
+#   * overlay and commit: provisional hashes go into a dict created by the call (`pending[i] = h`), reads go through
+#     a view (`pending[i] if i in pending else self[i]`), and the dict is copied into the tree by a final loop that
+#     nothing that can raise follows.  That is rewritten into the journal form it is equivalent to: `pending[i] = h`
+#     becomes `self[i] = h; journal_.add(i)`, a view read becomes `self[i]`, a direct read of the tree (which does not
+#     see the provisional hashes) becomes `BASE_[i]`, the commit loop is dropped and the region is wrapped in a
+#     handler that undoes the journal for every exception.  What the rewrite takes for granted is decided first, on the
+#     real control flow graph: the commit loop is not followed by anything that can reject the call (else .1), every
+#     key that enters the overlay was used to read the tree before (else a key outside the tree makes the commit
+#     loop raise IndexError half-way, .9), and the overlay is used in no other way (else ANALYSIS-ERROR).
+# ---------------------------------------------------------------------------------------------------------------
+import copy as _copy
+
+_BASE = "BASE_"
+_JOURNAL = "journal_"
+
+
+class _View:
+    def __init__(self, fn, orig, shape, pre):
+        self.fn, self.orig, self.shape, self.pre = fn, orig, shape, pre
+
+
+def _tree_slot_store(n) -> bool:
+    return isinstance(n, ast.Assign) and any(isinstance(t, ast.Subscript) and not isinstance(t.slice, ast.Slice)
+                                             and attr_path(t.value) == "self" for t in n.targets)
+
+
+def _stores_slots(cg, f) -> bool:
+    return any(_tree_slot_store(n) for g in _self_closure(cg, f).values() for n in func_own_nodes(g))
+
+
+def _clone_func(fn, node, drop_nested=()):
+    ast.fix_missing_locations(node)
+    v = FuncInfo(fn.module, node, fn.qual, fn.cls, fn.parent)
+    for st in own_nodes(node):
+        if isinstance(st, (ast.FunctionDef, ast.AsyncFunctionDef)) and st is not node and st.name not in drop_nested:
+            v.nested[st.name] = FuncInfo(fn.module, st, fn.qual + "." + st.name, fn.cls, v)
+    return v
+
+
+class _Rename(ast.NodeTransformer):
+    def __init__(self, mapping):
+        self.mapping = mapping
+
+    def visit_Name(self, n):
+        if n.id in self.mapping:
+            return ast.copy_location(ast.Name(id=self.mapping[n.id], ctx=n.ctx), n)
+        return n
+
+
+class _ReplaceNode(ast.NodeTransformer):
+    def __init__(self, old, new):
+        self.old, self.new = old, new
+
+    def visit(self, n):
+        if n is self.old:
+            return self.new
+        return self.generic_visit(n)
+
+
+def _inline_helpers(idx, fn):
+    """set_hashes with the helper methods that write tree slots inlined (fn itself when there are none)."""
+    cg = get_callgraph(idx)
+    counter = [0]
+
+    def helper_of(call):
+        if isinstance(call, ast.Call) and isinstance(call.func, ast.Attribute) and attr_path(call.func.value) == "self" \
+                and fn.cls is not None:
+            m = fn.cls.lookup(call.func.attr)
+            if m is not None and m.name != fn.name and _stores_slots(cg, m):
+                return m
+        return None
+
+    if not any(helper_of(c) for c in func_own_nodes(fn)):
+        return fn
+
+    def instantiate(m, call):
+        a = m.node.args
+        if a.vararg or a.kwarg or a.kwonlyargs or getattr(a, "posonlyargs", None) or m.decorators() or m.nested \
+                or any(isinstance(x, ast.Starred) for x in call.args) or any(k.arg is None for k in call.keywords) \
+                or any(isinstance(x, (ast.Yield, ast.YieldFrom, ast.Await, ast.Global, ast.Nonlocal)) for x in func_own_nodes(m)):
+            raise AnalysisError("set_hashes: cannot follow the tree stores made inside %s (signature / generator)" % short(m))
+        params = [x.arg for x in a.args][1:]
+        body = _copy.deepcopy(m.node.body)
+        if body and isinstance(body[0], ast.Expr) and isinstance(body[0].value, ast.Constant) and isinstance(body[0].value.value, str):
+            body = body[1:]
+        rets = [x for st in body for x in own_nodes(st) if isinstance(x, ast.Return)]
+        if rets and (len(rets) != 1 or rets[0] is not body[-1]):
+            raise AnalysisError("set_hashes: cannot follow the tree stores made inside %s (it returns from the middle)" % short(m))
+        counter[0] += 1
+        prefix = "%s%d_" % (m.name.strip("_"), counter[0])
+        stored = {x.id for st in body for x in own_nodes(st) if isinstance(x, ast.Name) and isinstance(x.ctx, (ast.Store, ast.Del))}
+        given = {}
+        for k, x in enumerate(call.args):
+            if k >= len(params):
+                raise AnalysisError("set_hashes: call of %s does not match its signature" % short(m))
+            given[params[k]] = x
+        for kw in call.keywords:
+            given[kw.arg] = kw.value
+        nd = len(a.defaults)
+        for k, p in enumerate(params):
+            j = k + 1 - (len(a.args) - nd)
+            if p not in given and j >= 0:
+                given[p] = a.defaults[j]
+        pre, mapping = [], {}
+        for p in params:
+            e = given.get(p)
+            if e is None:
+                raise AnalysisError("set_hashes: call of %s does not match its signature" % short(m))
+            if isinstance(e, ast.Name) and p not in stored:
+                mapping[p] = e.id
+            else:
+                mapping[p] = prefix + p
+                pre.append(ast.copy_location(ast.Assign(targets=[ast.Name(id=prefix + p, ctx=ast.Store())],
+                                                        value=_copy.deepcopy(e)), call))
+        for nm in stored:
+            if nm not in mapping:
+                mapping[nm] = prefix + nm
+        body = [_Rename(mapping).visit(st) for st in body]
+        repl = None
+        if rets:
+            last = body.pop()
+            if last.value is not None:
+                body.append(ast.copy_location(ast.Assign(targets=[ast.Name(id=prefix + "ret", ctx=ast.Store())], value=last.value), last))
+                repl = ast.Name(id=prefix + "ret", ctx=ast.Load())
+        return pre + body, repl
+
+    changed = [False]
+
+    def expand(stmts):
+        out = []
+        for st in stmts:
+            if isinstance(st, (ast.FunctionDef, ast.AsyncFunctionDef, ast.ClassDef)):
+                out.append(st)
+                continue
+            if any(hasattr(st, f) for f in ("body", "handlers")):
+                for fld, val in ast.iter_fields(st):
+                    if fld in ("body", "orelse", "finalbody"):
+                        setattr(st, fld, expand(val))
+                    elif fld == "handlers":
+                        for h_ in val:
+                            h_.body = expand(h_.body)
+                    else:
+                        for v in (val if isinstance(val, list) else [val]):
+                            if isinstance(v, ast.AST) and any(helper_of(c) for c in own_nodes(v)):
+                                raise AnalysisError("set_hashes: a helper that writes tree slots is called in the head of a "
+                                                    "compound statement (%s)" % fn.loc(st))
+                out.append(st)
+                continue
+            calls = [c for c in own_nodes(st) if helper_of(c)]
+            if not calls:
+                out.append(st)
+                continue
+            changed[0] = True
+            c = calls[0]
+            pre, repl = instantiate(helper_of(c), c)
+            out.extend(pre)
+            if isinstance(st, ast.Expr) and st.value is c:
+                continue
+            out.append(_ReplaceNode(c, repl if repl is not None else ast.Constant(value=None)).visit(st))
+        return out
+
+    node = _copy.deepcopy(fn.node)
+    for _round in range(4):
+        changed[0] = False
+        node.body = expand(node.body)
+        if not changed[0]:
+            break
+    else:
+        raise AnalysisError("set_hashes: helper calls nest too deeply to follow")
+    return _clone_func(fn, node)
+
+
+def _same(a, b) -> bool:
+    return ast.dump(a) == ast.dump(b)
+
+
+def _tree_at(e):
+    """X for the expression self[X]."""
+    if isinstance(e, ast.Subscript) and isinstance(e.ctx, ast.Load) and attr_path(e.value) == "self" \
+            and not isinstance(e.slice, ast.Slice):
+        return e.slice
+    return None
+
+
+def _overlay_at(e, O):
+    if isinstance(e, ast.Subscript) and isinstance(e.ctx, ast.Load) and attr_path(e.value) == O:
+        return e.slice
+    return None
+
+
+def _membership(test, O):
+    """(X, polarity) for `X in O` / `X not in O`."""
+    if isinstance(test, ast.Compare) and len(test.ops) == 1 and attr_path(test.comparators[0]) == O:
+        if isinstance(test.ops[0], ast.In):
+            return test.left, True
+        if isinstance(test.ops[0], ast.NotIn):
+            return test.left, False
+    if isinstance(test, ast.UnaryOp) and isinstance(test.op, ast.Not):
+        r = _membership(test.operand, O)
+        return (r[0], not r[1]) if r else None
+    return None
+
+
+def _choice(test, a, b, O):
+    """X when `a if test else b` reads the overlay at X where it has an entry and the tree at X otherwise."""
+    mm = _membership(test, O)
+    if not mm:
+        return None
+    x, pol = mm
+    if not pol:
+        a, b = b, a
+    xa, xb = _overlay_at(a, O), _tree_at(b)
+    if xa is not None and xb is not None and _same(xa, x) and _same(xb, x):
+        return x
+    return None
+
+
+def _view_read(e, O, views):
+    """X when the expression e reads the overlaid tree at X (the provisional hash if there is one, else the slot)."""
+    if isinstance(e, ast.Call) and isinstance(e.func, ast.Name) and e.func.id in views and len(e.args) == 1 and not e.keywords \
+            and not isinstance(e.args[0], ast.Starred):
+        return e.args[0]
+    if isinstance(e, ast.Call) and isinstance(e.func, ast.Attribute) and e.func.attr == "get" and attr_path(e.func.value) == O \
+            and len(e.args) == 2 and not e.keywords:
+        x = _tree_at(e.args[1])
+        if x is not None and _same(x, e.args[0]):
+            return x
+    if isinstance(e, ast.IfExp):
+        return _choice(e.test, e.body, e.orelse, O)
+    return None
+
+
+def _is_view_def(d, O) -> bool:
+    a = d.args
+    if a.vararg or a.kwarg or a.kwonlyargs or a.defaults or len(a.args) != 1 or d.decorator_list:
+        return False
+    p = a.args[0].arg
+    body = list(d.body)
+    if body and isinstance(body[0], ast.Expr) and isinstance(body[0].value, ast.Constant):
+        body = body[1:]
+    x = None
+    if len(body) == 1 and isinstance(body[0], ast.Return) and body[0].value is not None:
+        x = _view_read(body[0].value, O, ())
+    elif len(body) in (1, 2) and isinstance(body[0], ast.If) and len(body[0].body) == 1 and isinstance(body[0].body[0], ast.Return):
+        rest = body[0].orelse if len(body) == 1 else body[1:]
+        if not (len(body) == 2 and body[0].orelse) and len(rest) == 1 and isinstance(rest[0], ast.Return) \
+                and body[0].body[0].value is not None and rest[0].value is not None:
+            x = _choice(body[0].test, body[0].body[0].value, rest[0].value, O)
+    return isinstance(x, ast.Name) and x.id == p
+
+
+class _OverlayRewrite(ast.NodeTransformer):
+    def __init__(self, O, views):
+        self.O, self.views, self.other_uses = O, views, []
+
+    def _self_at(self, x, ctx, like):
+        return ast.copy_location(ast.Subscript(value=ast.Name(id="self", ctx=ast.Load()), slice=x, ctx=ctx), like)
+
+    def visit_Call(self, n):
+        x = _view_read(n, self.O, self.views)
+        if x is not None:
+            return self._self_at(self.visit(x), ast.Load(), n)
+        return self.generic_visit(n)
+
+    def visit_IfExp(self, n):
+        x = _view_read(n, self.O, self.views)
+        if x is not None:
+            return self._self_at(self.visit(x), ast.Load(), n)
+        return self.generic_visit(n)
+
+    def visit_Subscript(self, n):
+        if _tree_at(n) is not None:
+            return ast.copy_location(ast.Subscript(value=ast.Name(id=_BASE, ctx=ast.Load()), slice=self.visit(n.slice),
+                                                   ctx=ast.Load()), n)
+        return self.generic_visit(n)
+
+    def visit_Assign(self, n):
+        if len(n.targets) == 1 and isinstance(n.targets[0], ast.Subscript) and attr_path(n.targets[0].value) == self.O \
+                and not isinstance(n.targets[0].slice, ast.Slice):
+            ix = self.visit(n.targets[0].slice)
+            st = ast.copy_location(ast.Assign(targets=[self._self_at(ix, ast.Store(), n)], value=self.visit(n.value)), n)
+            j = ast.copy_location(ast.Expr(value=ast.Call(func=ast.Attribute(value=ast.Name(id=_JOURNAL, ctx=ast.Load()), attr="add",
+                                                                             ctx=ast.Load()), args=[_copy.deepcopy(ix)], keywords=[])), n)
+            return [st, j]
+        return self.generic_visit(n)
+
+    def visit_FunctionDef(self, n):
+        if n.name in self.views:
+            return None
+        return self.generic_visit(n)
+
+    def visit_Name(self, n):
+        if n.id == self.O:
+            self.other_uses.append(n)
+        return n
+
+
+def _commit_source(st):
+    """O when the loop `st` copies the dict O into the tree slots."""
+    if not (isinstance(st, ast.For) and not st.orelse and len(st.body) == 1 and _tree_slot_store(st.body[0])
+            and len(st.body[0].targets) == 1):
+        return None
+    tgt, val = st.body[0].targets[0], st.body[0].value
+    it = st.iter
+    if isinstance(st.target, ast.Tuple) and len(st.target.elts) == 2 and all(isinstance(x, ast.Name) for x in st.target.elts) \
+            and isinstance(it, ast.Call) and call_tail(it) == "items" and isinstance(it.func, ast.Attribute) and not it.args \
+            and isinstance(it.func.value, ast.Name):
+        k, v = st.target.elts
+        if attr_path(tgt.slice) == k.id and attr_path(val) == v.id:
+            return it.func.value.id
+        return None
+    if isinstance(st.target, ast.Name):
+        while isinstance(it, ast.Call) and call_tail(it) in ("keys", "list", "sorted", "tuple") and not it.keywords:
+            it = it.func.value if (call_tail(it) == "keys" and isinstance(it.func, ast.Attribute)) else (it.args[0] if len(it.args) == 1 else None)
+        if isinstance(it, ast.Name) and attr_path(tgt.slice) == st.target.id and isinstance(val, ast.Subscript) \
+                and attr_path(val.value) == it.id and attr_path(val.slice) == st.target.id:
+            return it.id
+    return None
+
+
+def _build_view(idx, fn0, pre):
+    fn = _inline_helpers(idx, fn0)
+    cfg = fn.cfg()
+    try:
+        _journal_name(fn, cfg)
+        return _View(fn, fn0, "journal", [])
+    except AnchorVanished:
+        pass
+    stores = [n for n in func_own_nodes(fn) if _tree_slot_store(n)]
+    if not stores:
+        raise AnchorVanished("set_hashes: no store into the tree slots (self[i] = h) was found")
+    where = _node_of(cfg)
+    commits = [(st, _commit_source(st)) for st in fn.node.body if _commit_source(st) is not None]
+    covered = {id(st.body[0]) for (st, _o) in commits}
+    if any(id(s) not in covered for s in stores):
+        # neither undone by a handler nor deferred to a final commit: decided only when a rejection can follow a store
+        for s in stores:
+            if id(s) in covered:
+                continue
+            cn = where.get(id(s.value)) or where.get(id(s.targets[0]))
+            w = _rejection_follows(cfg, cn) if cn is not None else None
+            if w is not None:
+                pre.append(("1", s, "store %s is neither undone by a handler that resets the journaled slots nor deferred to a final "
+                            "commit, and the call can still be rejected afterwards (%s): the unvalidated hash stays in the tree"
+                            % (src(fn, s.targets[0]), w.brief()), w))
+        if not pre:
+            raise AnchorVanished("set_hashes: no handler loop resetting journaled indices to None")
+        return _View(None, fn0, "bare", pre)
+    os_ = {o for (_s, o) in commits}
+    if len(os_) != 1:
+        raise AnalysisError("set_hashes: the tree slots are committed from several collections (%s)" % sorted(os_))
+    O = os_.pop()
+    binds = [k for k, st in enumerate(fn.node.body) if isinstance(st, ast.Assign) and len(st.targets) == 1
+             and attr_path(st.targets[0]) == O and ((isinstance(st.value, ast.Dict) and not st.value.keys) or
+                                                     (isinstance(st.value, ast.Call) and call_name(st.value) == "dict"
+                                                      and not st.value.args and not st.value.keywords))]
+    nstores = [x for x in func_own_nodes(fn) if isinstance(x, ast.Name) and x.id == O and isinstance(x.ctx, (ast.Store, ast.Del))]
+    if len(binds) != 1 or len(nstores) != 1 or O in fn.params:
+        raise AnalysisError("set_hashes: cannot decide that the collection %s the tree is committed from is a dict created by "
+                            "this call" % O)
+    first_commit = min(k for k, st in enumerate(fn.node.body) if any(st is c for (c, _o) in commits))
+    if first_commit < binds[0]:
+        raise AnalysisError("set_hashes: the commit loop precedes the creation of %s" % O)
+    # (1) nothing that can reject the call follows the first slot written by the commit
+    for (st, _o) in commits:
+        itn = [n for n in cfg.nodes if n.kind == "iter" and n.ast is st]
+        cn = where.get(id(st.body[0].value)) or where.get(id(st.body[0].targets[0]))
+        w = _rejection_follows(cfg, cn) if cn is not None else None
+        if not itn or cn is None:
+            raise AnalysisError("set_hashes: cannot place the commit loop in the control flow graph")
+        if w is not None:
+            pre.append(("1", st, "the loop that copies the provisional hashes from %s into the tree slots is followed by code that can "
+                        "still reject the call (%s), and nothing undoes the slots already written: a rejected offer leaves "
+                        "unvalidated hashes in the tree" % (O, w.brief()), w))
+    # (2) every key that enters the overlay has been used to read the tree (so it lies inside it)
+    fnorm = FlowNorm(fn)
+    views = {d.name for d in own_nodes(fn.node) if isinstance(d, ast.FunctionDef) and d is not fn.node and _is_view_def(d, O)}
+    for n in cfg.stmt_nodes():
+        a = n.ast
+        if isinstance(a, ast.Assign) and len(a.targets) == 1 and isinstance(a.targets[0], ast.Subscript) \
+                and attr_path(a.targets[0].value) == O:
+            ixn = fnorm.norm(n, a.targets[0].slice)
+            if ixn.startswith("self.parent("):
+                continue
+
+            def reads_tree(m, _ix=ixn):
+                for e in node_exprs(m):
+                    for x in own_nodes(e):
+                        k = _tree_at(x)
+                        if k is None and isinstance(x, ast.Call):
+                            k = _view_read(x, O, views)
+                        if k is not None and fnorm.norm(m, k) == _ix:
+                            return True
+                return False
+            names = names_in(a.targets[0].slice)
+            bad = find_path_avoiding(cfg, lambda m, _n=n: m is _n, gate_node=reads_tree)
+            if bad:
+                pre.append(("9", a, "the key %s enters the overlay %s on a path where the tree was never read at that index (%s): an "
+                            "index outside the tree is only noticed by the commit loop, which then raises IndexError after it has "
+                            "written some of the slots - a rejected offer leaves unvalidated hashes in the tree"
+                            % (ixn, O, bad[0][1].brief()), bad[0][1]))
+    # (3) the equivalent journal form
+    node = _copy.deepcopy(fn.node)
+    body = node.body
+    rw = _OverlayRewrite(O, views)
+    head = body[:binds[0]]
+    region = [st for st in body[binds[0] + 1:first_commit]]
+    rest = [st for st in body[first_commit:] if _commit_source(st) is None]
+    new_region = []
+    for st in region:
+        r_ = rw.visit(st)
+        new_region.extend(r_ if isinstance(r_, list) else ([r_] if r_ is not None else []))
+    for st in head + rest:
+        if any(isinstance(x, ast.Name) and x.id == O for x in ast.walk(st)):
+            rw.other_uses.append(st)
+    if rw.other_uses:
+        raise AnalysisError("set_hashes: the overlay %s is used in a way the analysis does not understand (%s): cannot decide what "
+                            "the validation reads" % (O, fn.loc(rw.other_uses[0])))
+    if not new_region:
+        raise AnalysisError("set_hashes: nothing between the creation of the overlay and its commit")
+    at = body[binds[0]]
+    jbind = ast.copy_location(ast.Assign(targets=[ast.Name(id=_JOURNAL, ctx=ast.Store())],
+                                         value=ast.Call(func=ast.Name(id="set", ctx=ast.Load()), args=[], keywords=[])), at)
+    last = body[first_commit]
+    undo = ast.copy_location(ast.For(target=ast.Name(id="k_", ctx=ast.Store()), iter=ast.Name(id=_JOURNAL, ctx=ast.Load()),
+                                     body=[ast.Assign(targets=[ast.Subscript(value=ast.Name(id="self", ctx=ast.Load()),
+                                                                             slice=ast.Name(id="k_", ctx=ast.Load()), ctx=ast.Store())],
+                                                      value=ast.Constant(value=None))], orelse=[]), last)
+    handler = ast.copy_location(ast.ExceptHandler(type=ast.Name(id="BaseException", ctx=ast.Load()), name=None,
+                                                  body=[undo, ast.copy_location(ast.Raise(exc=None, cause=None), last)]), last)
+    tr = ast.copy_location(ast.Try(body=new_region, handlers=[handler], orelse=[], finalbody=[]), at)
+    node.body = head + [jbind, tr] + rest
+    for x in ast.walk(node):
+        if isinstance(x, ast.stmt) and not hasattr(x, "lineno"):
+            ast.copy_location(x, last)
+    return _View(_clone_func(fn, node, drop_nested=views), fn0, "overlay", pre)
